@@ -4,6 +4,10 @@ import FinamModel.Translated.PreviousTime__interpolate
 import FinamModel.Translated.LinearTime__interpolate
 import FinamModel.Translated.StepTime__interpolate
 import FinamModel.Translated.TimeCachingAdapter__clear_cached_data
+import FinamModel.Translated.TimeCachingAdapter__get_data_next
+import FinamModel.Translated.TimeCachingAdapter__get_data_prev
+import FinamModel.Translated.TimeCachingAdapter__get_data_linear
+import FinamModel.Translated.TimeCachingAdapter__get_data_step
 /-
   Equivalence of the translated `_interpolate` bodies / eviction loop of the time-caching adapters
   (regenerated from `finam/adapters/time.py`) with the hand-written model `TA.*` of the C11 theorems.
@@ -240,10 +244,111 @@ theorem clear_while {α} (t : Int) : ∀ (fuel : Nat) (d : List (Int × α)), d.
       · simp [hc, ofE]
         exact (ofE_toE r).symm
 
-theorem tr_clear_cached_data {α} (d : List (Int × α)) (t : Int) :
+theorem tr_TimeCachingAdapter__clear_cached_data {α} (d : List (Int × α)) (t : Int) :
     Tr.TimeCachingAdapter__clear_cached_data d t = .ok (ofE (TA.clear (toE d) t)) := by
   unfold Tr.TimeCachingAdapter__clear_cached_data
   apply clear_while
   simp [Py.len]
+
+/-- `check_time(logger, time, (lo, hi))` with both bounds given: first the upper bound, then the lower one,
+    a `FinamTimeError` either way -/
+theorem tr_check_time (t lo hi : Int) :
+    Tr.check_time t (some lo, some hi) = (if t > hi then .error .timeErr else if t < lo then .error .timeErr else .ok ()) := by
+  unfold Tr.check_time
+  by_cases h1 : t > hi <;> by_cases h2 : t < lo <;> simp [Py.unwrap, h1, h2]
+
+/-- the emptiness test and `check_time(…, (data[0][0], data[-1][0]))` of `_get_data` are `TA.checkRange` -/
+theorem check_range_tr {α} (p : Int × α) (r : List (Int × α)) (t : Int) :
+    (do let a ← idx (p :: r) 0
+        let b ← idx (p :: r) (-1)
+        Tr.check_time t (some a.1, some b.1) : Except Err Unit) = TA.checkRange (toE (p :: r)) t := by
+  simp only [idx_zero_cons, ok_bind, idx_last, tr_check_time, toE_cons, TA.checkRange]
+
+theorem sorted_head_le {α} (p : Int × α) (r : List (Int × α)) (t : Int)
+    (h : TA.checkRange (toE (p :: r)) t = .ok ()) : ∀ e ∈ (p :: r).head?, e.1 ≤ t := by
+  intro e he
+  simp at he; subst he
+  simp only [toE_cons, TA.checkRange] at h
+  by_cases h1 : t > (TA.lastE ⟨p.1, p.2⟩ (toE r)).t
+  · simp [h1] at h
+  · by_cases h2 : t < p.1
+    · simp [h1, h2] at h
+    · omega
+
+/-- **`TimeCachingAdapter._get_data` of `NextTime`** = `TA.stepImpl .next` on a pull: the answer of `getData` and the
+    buffer after `_clear_cached_data` -/
+theorem tr_TimeCachingAdapter__get_data_next (d : List (Int × Rat)) (t : Int) :
+    Tr.TimeCachingAdapter__get_data_next d t =
+      (TA.getData .next (toE d) t).map (fun v => (v, ofE (TA.clear (toE d) t))) := by
+  unfold Tr.TimeCachingAdapter__get_data_next
+  match d with
+  | [] => simp [TA.getData, TA.checkRange, Except.map]
+  | p :: r =>
+    have hl : ¬ (Py.len r + 1 = 0) := by have := len_nonneg r; omega
+    simp only [len_cons, hl, if_false, idx_zero_cons, ok_bind, idx_last, tr_check_time, tr_NextTime__interpolate,
+      tr_TimeCachingAdapter__clear_cached_data, TA.getData, TA.interp, toE_cons, TA.checkRange]
+    by_cases h1 : t > (TA.lastE ⟨p.1, p.2⟩ (toE r)).t
+    · simp [h1, Except.map]
+    · by_cases h2 : t < p.1
+      · simp [h1, h2, Except.map]
+      · simp only [h1, h2, if_false, ok_bind]
+        cases TA.nextInterp (⟨p.1, p.2⟩ :: toE r) t <;> simp [Except.map]
+
+theorem tr_TimeCachingAdapter__get_data_prev (d : List (Int × Rat)) (t : Int) :
+    Tr.TimeCachingAdapter__get_data_prev d t =
+      (TA.getData .prev (toE d) t).map (fun v => (v, ofE (TA.clear (toE d) t))) := by
+  unfold Tr.TimeCachingAdapter__get_data_prev
+  match d with
+  | [] => simp [TA.getData, TA.checkRange, Except.map]
+  | p :: r =>
+    have hl : ¬ (Py.len r + 1 = 0) := by have := len_nonneg r; omega
+    simp only [len_cons, hl, if_false, idx_zero_cons, ok_bind, idx_last, tr_check_time, tr_PreviousTime__interpolate,
+      tr_TimeCachingAdapter__clear_cached_data, TA.getData, TA.interp, toE_cons, TA.checkRange]
+    by_cases h1 : t > (TA.lastE ⟨p.1, p.2⟩ (toE r)).t
+    · simp [h1, Except.map]
+    · by_cases h2 : t < p.1
+      · simp [h1, h2, Except.map]
+      · simp only [h1, h2, if_false, ok_bind]
+        cases TA.prevInterp (⟨p.1, p.2⟩ :: toE r) t <;> simp [Except.map]
+
+theorem tr_TimeCachingAdapter__get_data_linear (d : List (Int × Rat)) (t : Int) (hs : Sorted (toE d)) :
+    Tr.TimeCachingAdapter__get_data_linear d t =
+      (TA.getData .linear (toE d) t).map (fun v => (v, ofE (TA.clear (toE d) t))) := by
+  unfold Tr.TimeCachingAdapter__get_data_linear
+  match d with
+  | [] => simp [TA.getData, TA.checkRange, Except.map]
+  | p :: r =>
+    have hl : ¬ (Py.len r + 1 = 0) := by have := len_nonneg r; omega
+    simp only [len_cons, hl, if_false, idx_zero_cons, ok_bind, idx_last, tr_check_time,
+      tr_TimeCachingAdapter__clear_cached_data, TA.getData, TA.interp, toE_cons, TA.checkRange]
+    by_cases h1 : t > (TA.lastE ⟨p.1, p.2⟩ (toE r)).t
+    · simp [h1, Except.map]
+    · by_cases h2 : t < p.1
+      · simp [h1, h2, Except.map]
+      · have h0 : ∀ e ∈ (p :: r).head?, e.1 ≤ t := by intro e he; simp at he; subst he; omega
+        have := tr_LinearTime__interpolate (p :: r) t hs h0
+        simp only [toE_cons] at this
+        simp only [h1, h2, if_false, ok_bind, this]
+        cases TA.linInterp (⟨p.1, p.2⟩ :: toE r) t <;> simp [Except.map]
+
+theorem tr_TimeCachingAdapter__get_data_step (d : List (Int × Rat)) (pos : Rat) (t : Int) (hs : Sorted (toE d)) :
+    Tr.TimeCachingAdapter__get_data_step d pos t =
+      (TA.getData (.step pos) (toE d) t).map (fun v => (v, ofE (TA.clear (toE d) t))) := by
+  unfold Tr.TimeCachingAdapter__get_data_step
+  match d with
+  | [] => simp [TA.getData, TA.checkRange, Except.map]
+  | p :: r =>
+    have hl : ¬ (Py.len r + 1 = 0) := by have := len_nonneg r; omega
+    simp only [len_cons, hl, if_false, idx_zero_cons, ok_bind, idx_last, tr_check_time,
+      tr_TimeCachingAdapter__clear_cached_data, TA.getData, TA.interp, toE_cons, TA.checkRange]
+    by_cases h1 : t > (TA.lastE ⟨p.1, p.2⟩ (toE r)).t
+    · simp [h1, Except.map]
+    · by_cases h2 : t < p.1
+      · simp [h1, h2, Except.map]
+      · have h0 : ∀ e ∈ (p :: r).head?, e.1 ≤ t := by intro e he; simp at he; subst he; omega
+        have := tr_StepTime__interpolate (p :: r) pos t hs h0
+        simp only [toE_cons] at this
+        simp only [h1, h2, if_false, ok_bind, this]
+        cases TA.stepInterp pos (⟨p.1, p.2⟩ :: toE r) t <;> simp [Except.map]
 
 end Finam.Props.C11
